@@ -16,7 +16,8 @@ func validateIPv6Literal(host []byte) error {
 		return nil
 	}
 	end := bytes.IndexByte(host, ']')
-	if end < 0 || end == 1 {
+	if end < 0 || end == 1 || !validOptionalPort(host[end+1:]) {
+		// Only an optional port may follow the first ']'.
 		return errInvalidIPv6Host
 	}
 	addr := host[1:end]
